@@ -115,6 +115,21 @@ type loopEffect struct {
 	ok     bool // commutative / order-insensitive on its own
 	val    ssa.Value
 	instr  ssa.Instruction
+	isCell func(ssa.Value) bool // recognises loads of the carried cell (captured variable or environment field)
+}
+
+// envRecv: for a callback that is a bound method value, the receiver is the
+// callback's environment: its fields play the role a closure's captured
+// variables play. Set by the caller of bodyEffects.
+var envRecv = map[*ssa.Function]ssa.Value{}
+
+// envField: addr is &recv.f for the environment receiver of fn.
+func envField(fn *ssa.Function, addr ssa.Value) (int, bool) {
+	fa, ok := addr.(*ssa.FieldAddr)
+	if !ok || envRecv[fn] == nil || fa.X != envRecv[fn] {
+		return 0, false
+	}
+	return fa.Field, true
 }
 
 type loopInfo struct {
@@ -332,8 +347,28 @@ func bodyEffects(c *core.Ctx, fn *ssa.Function, body map[*ssa.BasicBlock]bool, i
 					}, x.Pos())
 					eff.val = fv
 					eff.instr = x
-					if eff.kind == "overwrite" && feedsOnlyErrorText(fn, fv) {
+					eff.isCell = func(v ssa.Value) bool { return v == ssa.Value(fv) }
+					if eff.kind == "overwrite" && feedsOnlyErrorText(fn, eff.isCell) {
 						eff.kind, eff.ok, eff.detail = "err-text", true, "the variable is only ever formatted into error messages"
+					}
+					out = append(out, eff)
+					continue
+				}
+				if idx, isEnv := envField(fn, x.Addr); isEnv {
+					isCell := func(v ssa.Value) bool {
+						i, ok := envField(fn, v)
+						return ok && i == idx
+					}
+					eff := classifyCarried(c, fn, body, "environment field "+core.Sym(x.Addr), x.Val, func(v ssa.Value) bool {
+						ld, ok := v.(*ssa.UnOp)
+						return ok && ld.Op == token.MUL && isCell(ld.X)
+					}, x.Pos())
+					eff.val = envRecv[fn]
+					eff.instr = x
+					eff.isCell = isCell
+					eff.target = fmt.Sprintf("environment field #%d", idx)
+					if eff.kind == "overwrite" && feedsOnlyErrorText(fn, isCell) {
+						eff.kind, eff.ok, eff.detail = "err-text", true, "the field is only ever formatted into error messages"
 					}
 					out = append(out, eff)
 					continue
@@ -531,7 +566,7 @@ var commutativeReducers = map[string]string{
 
 // feedsOnlyErrorText: every load of the captured variable in fn flows only
 // into error constructors (fmt.Errorf / errors.New).
-func feedsOnlyErrorText(fn *ssa.Function, fv *ssa.FreeVar) bool {
+func feedsOnlyErrorText(fn *ssa.Function, isCell func(ssa.Value) bool) bool {
 	ok := true
 	var follow func(v ssa.Value, d int)
 	seen := map[ssa.Value]bool{}
@@ -570,13 +605,11 @@ func feedsOnlyErrorText(fn *ssa.Function, fv *ssa.FreeVar) bool {
 			}
 		}
 	}
-	n := 0
-	for _, r := range *fv.Referrers() {
-		if ld, isLd := r.(*ssa.UnOp); isLd && ld.Op == token.MUL {
-			n++
+	core.Instrs(fn, func(in ssa.Instruction) {
+		if ld, isLd := in.(*ssa.UnOp); isLd && ld.Op == token.MUL && isCell(ld.X) {
 			follow(ld, 0)
 		}
-	}
+	})
 	return ok
 }
 
@@ -789,6 +822,15 @@ func checkWalkCallbacks(c *core.Ctx, l *core.Ledger) {
 		case *ssa.MakeClosure:
 			cb = v.Fn.(*ssa.Function)
 			bindings = v.Bindings
+			if strings.HasSuffix(cb.Name(), "$bound") {
+				// method value recv.m: the method is the callback, its receiver the environment
+				if t := funcValueTarget(v); t != nil && t.Signature.Recv() != nil && len(t.Params) > 0 {
+					cb = t
+					envRecv[cb] = t.Params[0]
+				} else {
+					cb = nil
+				}
+			}
 		case *ssa.Function:
 			cb = v
 		}
@@ -802,7 +844,9 @@ func checkWalkCallbacks(c *core.Ctx, l *core.Ledger) {
 		}
 		iter := map[ssa.Value]bool{}
 		for _, p := range cb.Params {
-			iter[p] = true
+			if ssa.Value(p) != envRecv[cb] {
+				iter[p] = true
+			}
 		}
 		effs := bodyEffects(c, cb, body, iter, false)
 		// effects inside the callback are relative to cb: captured variables (fv) and its parameter
@@ -818,21 +862,21 @@ func checkWalkCallbacks(c *core.Ctx, l *core.Ledger) {
 		var bad []loopEffect
 		var notes []string
 		// the first element of a reduction: "if v == nil { v = x }" next to "v = f(v, x)"
-		reduced := map[ssa.Value]bool{}
+		reduced := map[string]bool{}
 		for _, e := range rel {
 			if e.kind == "reduce" && e.ok {
-				reduced[e.val] = true
+				reduced[e.target] = true
 			}
 		}
 		for i, e := range rel {
-			if e.kind == "overwrite" && reduced[e.val] && e.instr != nil {
-				fv := e.val
+			if e.kind == "overwrite" && reduced[e.target] && e.instr != nil && e.isCell != nil {
+				isCell := e.isCell
 				edges := core.GuardEdges(cb, func(cm core.Cmp) bool {
 					if cm.Op != token.EQL {
 						return false
 					}
 					ld, ok := cm.X.(*ssa.UnOp)
-					if !ok || ld.X != fv {
+					if !ok || ld.Op != token.MUL || !isCell(ld.X) {
 						return false
 					}
 					k, isC := cm.Y.(*ssa.Const)
